@@ -105,6 +105,24 @@ class CDMachine(MachineBase):
         self.fs.mkdirs(op["path"])
         return "ok"
 
+    def op_cd_symlink(self, op):
+        """a symbolic link inside the tree ('latest-F-22' -> 'store/f22/F-22-20150522.0')"""
+        import os
+        from .. import simfs
+        link = self.fs.real(op["link"])
+        simfs._o["makedirs"](os.path.dirname(link), exist_ok=True)
+        if not os.path.lexists(link):
+            simfs._o["symlink"](op["target"], link)
+        return "ok"
+
+    def canon(self, p):
+        """the location a path really names: symbolic links resolved the way the kernel does (component by component, so
+        'link/..' is the parent of the link's TARGET), as a normalised path under the virtual root"""
+        import os
+        from .. import simfs
+        real = os.path.realpath(simfs.to_real(simfs.resolve(p)))
+        return posixpath.normpath(simfs.to_sim(real))
+
     def op_cd_touch(self, op):
         self.fs.put(op["path"], b"decoy")
         return "ok"
@@ -134,7 +152,7 @@ class CDMachine(MachineBase):
 
     def expected_compose_paths(self, given):
         """set of acceptable compose_path values (normalised); a singleton where the property decides."""
-        root = posixpath.normpath(given)
+        root = self.canon(given)
         if (root + "/compose/metadata/composeinfo.json") in self.fs.files:
             return [root + "/compose"], "compose-preferred"
         legacy = self._legacy_candidates(root)
@@ -184,8 +202,7 @@ class CDMachine(MachineBase):
 
     def _simpath(self, p):
         """a path as the Compose object spells it -> the normalised path under the virtual root"""
-        from .. import simfs
-        return posixpath.normpath(simfs.resolve(p))
+        return self.canon(p)
 
     def _expected_file(self, attr):
         base = self._simpath(self.compose.compose_path)
@@ -250,7 +267,7 @@ class CDMachine(MachineBase):
                 raise Violation("C20", "C20.missing_file_is_runtimeerror", "object-for-missing-file", {"attr": attr})
             if not isinstance(raised, RuntimeError):
                 raise Violation("C20", "C20.missing_file_is_runtimeerror", "missing-file-exctype/%s" % exc_class(raised), {"attr": attr})
-            if base not in str(raised):
+            if base not in str(raised) and self.compose.compose_path.rstrip("/") not in str(raised):
                 raise Violation("C20", "C20.error_names_location", "missing-file-error-lacks-location", {"msg": str(raised)[:200], "base": base})
             return "missing"
         rec = self.rec.get(target)
@@ -296,7 +313,7 @@ class CDMachine(MachineBase):
                 if not isinstance(raised, RuntimeError):
                     raise Violation("C20", "C20.undecodable_file_is_runtimeerror", "damaged-file-exctype/%s/%s" % (dmg, exc_class(raised)),
                                     {"attr": attr, "msg": str(raised)[:160]})
-                if base not in str(raised):
+                if base not in str(raised) and self.compose.compose_path.rstrip("/") not in str(raised):
                     raise Violation("C20", "C20.error_names_location", "damaged-file-error-lacks-location", {"msg": str(raised)[:200]})
             return "damaged:" + exc_class(raised)
         # valid file: must equal a direct load of that very file
